@@ -254,6 +254,7 @@ func C13(ctx *core.Ctx) int {
 	})
 	// binding to the implementation: the un-instrumented binary, fresh processes
 	bin := ctx.BuildRepoBinary("plain")
+	pinnedBin := ctx.BuildRepoBinary("pinned")
 	runsPer := 8
 	if ctx.Thorough() {
 		runsPer = 32
@@ -287,7 +288,11 @@ func C13(ctx *core.Ctx) int {
 					first[l] = t
 				}
 				seen[l][core.Hash(t)] = true
-				if t != first[l] {
+				// A free-running difference is a finding of its own only where the explorer found NO order dependence
+				// (nondeterminism outside the owned seam). Where the explorer already reports that this target's output
+				// depends on a map order, differing free runs are its expected consequence - and whether eight runs
+				// happen to differ is chance, which must not decide whether a signature appears.
+				if t != first[l] && !orderDependent(&enumerated, p.Name, l) {
 					ctx.Report("observed with the un-instrumented binary|two runs of the same command produce different "+l+" trees|"+progName(p.Name),
 						fmt.Sprintf("program %s: run %d differs from run 0\nfirst difference: %s", p.Name, k, firstDiffLine(first[l], t)),
 						map[string]any{"name": p.Name, "text": text, "lang": l})
@@ -295,19 +300,28 @@ func C13(ctx *core.Ctx) int {
 			}
 			os.RemoveAll(dir)
 		}
-		// independent of run: the same command into a directory that still holds the (longer) files of an earlier run
+		// independent of run: the same command into a directory that still holds the (longer) files of an earlier run.
+		// Done with the binary whose map order is pinned: with the free-running binary a program that is
+		// nondeterministic anyway (a known finding) would differ by chance and the directory would be blamed.
 		{
 			dir := ctx.TempPath(".n")
 			os.MkdirAll(dir, 0o755)
 			file := filepath.Join(dir, "in.dsl")
 			os.WriteFile(file, []byte(text), 0o644)
 			for _, l := range api.Langs {
-				if first[l] == "" || len(seen[l]) != 1 {
-					continue // not generated, or not even stable between fresh runs (reported above)
-				}
-				out := filepath.Join(dir, "out_"+l)
-				if r := runCLI(dir, 120*time.Second, bin, "compile", "-f", file, langFlag[l], "out_"+l); r.crashed || r.exit != 0 {
+				if first[l] == "" {
 					continue
+				}
+				if r := runCLI(dir, 120*time.Second, pinnedBin, "compile", "-f", file, langFlag[l], "fresh_"+l); r.crashed || r.exit != 0 {
+					continue
+				}
+				fresh := dirTree(filepath.Join(dir, "fresh_"+l))
+				out := filepath.Join(dir, "out_"+l)
+				if r := runCLI(dir, 120*time.Second, pinnedBin, "compile", "-f", file, langFlag[l], "out_"+l); r.crashed || r.exit != 0 {
+					continue
+				}
+				if dirTree(out) != fresh {
+					continue // not reproducible even with pinned map order and fresh directories: not this probe's subject
 				}
 				filepath.Walk(out, func(pth string, info os.FileInfo, err error) error {
 					if err == nil && !info.IsDir() {
@@ -318,13 +332,13 @@ func C13(ctx *core.Ctx) int {
 					}
 					return nil
 				})
-				if r := runCLI(dir, 120*time.Second, bin, "compile", "-f", file, langFlag[l], "out_"+l); r.crashed || r.exit != 0 {
+				if r := runCLI(dir, 120*time.Second, pinnedBin, "compile", "-f", file, langFlag[l], "out_"+l); r.crashed || r.exit != 0 {
 					continue
 				}
 				atomic.AddInt64(&st.traces, 1)
-				if t := dirTree(out); t != first[l] {
-					ctx.Report("observed with the un-instrumented binary|the "+l+" tree depends on what an earlier run left in the output directory|"+progName(p.Name),
-						fmt.Sprintf("program %s: compiled into a directory holding longer files of the same names\nfirst difference: %s", p.Name, firstDiffLine(first[l], t)),
+				if t := dirTree(out); t != fresh {
+					ctx.Report("the "+l+" tree depends on what an earlier run left in the output directory|"+progName(p.Name),
+						fmt.Sprintf("program %s: compiled into a directory holding longer files of the same names (binary with pinned map order)\nfirst difference: %s", p.Name, firstDiffLine(fresh, t)),
 						map[string]any{"name": p.Name, "text": text, "lang": l})
 				}
 			}
@@ -386,6 +400,19 @@ func C13(ctx *core.Ctx) int {
 	ctx.Assumes = append(ctx.Assumes, "nondeterminism inside third-party packages (ANTLR runtime, strcase, text/template) is not enumerated; the free runs of the real binary are the only look at it",
 		"the clock has two answers: now and now + 1 year")
 	return ctx.Finish("model_checking", cov)
+}
+
+// orderDependent: the explorer enumerated more than one outcome for (program, target).
+func orderDependent(enumerated *sync.Map, prog, lang string) bool {
+	v, ok := enumerated.Load(prog + "|" + lang)
+	if !ok {
+		return false
+	}
+	e := v.(struct {
+		set      map[string]bool
+		complete bool
+	})
+	return len(e.set) > 1
 }
 
 func progName(n string) string {
